@@ -120,8 +120,44 @@ fn smoke(args: &Args) {
     std::process::exit(if bad == 0 { 0 } else { 2 });
 }
 
+thread_local! {
+    static LAST_PANIC_LOC: std::cell::RefCell<String> = const { std::cell::RefCell::new(String::new()) };
+}
+
+/// Where the last panic of this thread was raised (file:line).
+pub fn last_panic_location() -> String {
+    LAST_PANIC_LOC.with(|l| l.borrow().clone())
+}
+
+/// A panic caught around code under test is an observation about jubako only if it was raised
+/// in jubako's (or a dependency's) code; a panic raised in the harness's own sources is a harness
+/// error and must never be reported as a verdict.
+pub fn harness_panic_guard(what: &str) {
+    let loc = last_panic_location();
+    if loc.starts_with("simf/") || loc.starts_with("simcore/") || loc.starts_with("verif-rt/") || loc.contains("/verif/sim/") {
+        simcore::harness_error(&format!("{what}: the harness itself panicked at {loc}"));
+    }
+}
+
+fn install_location_hook() {
+    let prev = std::panic::take_hook();
+    std::panic::set_hook(Box::new(move |info| {
+        let loc = info
+            .location()
+            .map(|l| format!("{}:{}", l.file(), l.line()))
+            .unwrap_or_else(|| "?".into());
+        LAST_PANIC_LOC.with(|l| *l.borrow_mut() = loc);
+        if std::env::var("VERIF_SHOW_PANICS").is_ok() {
+            prev(info);
+        }
+    }));
+}
+
 fn main() {
     let args = parse_args();
+    if !args.cmd.starts_with("child") {
+        install_location_hook();
+    }
     match args.cmd.as_str() {
         "smoke" => smoke(&args),
         "c04" | "c05" | "c06" => {
